@@ -21,7 +21,7 @@ RULE = ('Hypothesis-generated base scripts: a non-decreasing sequence of clock r
         'iteration budget), plus 0-2 generated faults. Each base script is executed as generated and then once '
         'for EVERY (iteration, processor position, action) with action in {raise Quit, quit_loop(world), '
         'quit_loop() through desper.default_loop, switch(), raise SwitchWorld (plain, clear_next, clear_current; '
-        'targets never loaded before, cached or cleared), raise RuntimeError, switch() whose on_switch_in '
+        'targets never loaded before, cached or cleared), raise RuntimeError / KeyboardInterrupt / SystemExit, switch() whose on_switch_in '
         'listener in the entered world raises RuntimeError / Quit while the loop completes the switch}. Oracle = '
         'model of the clock: dt is 0 for the first iteration after each start() and the exact difference of '
         'consecutive readings otherwise (also across switches), same dt for all processors of a frame, '
@@ -44,7 +44,9 @@ FINDINGS = {}
 ACTIONS = ['quit', 'quit_loop_w', 'quit_loop_default', 'switch', 'raise_switch', 'error', 'raise_switch_clear_next',
            'raise_switch_clear_current',
            # switch(), and the on_switch_in listener of the entered world raises while the loop completes the switch
-           'switch_in_listener_raises', 'switch_in_listener_quits']
+           'switch_in_listener_raises', 'switch_in_listener_quits',
+           # "any other exception": also the ones that do not derive from Exception
+           'error_keyboard_interrupt', 'error_system_exit']
 
 
 class Boom(RuntimeError):
@@ -52,7 +54,7 @@ class Boom(RuntimeError):
 
 
 def decode_fault(p):
-    return [p % 16, p // 16 % 4, p // 64 % 10, p // 640 % 3]
+    return [p % 16, p // 16 % 4, p // 64 % 12, p // 768 % 3]
 
 
 def strategy():
@@ -64,7 +66,7 @@ def strategy():
         # what the time function returns: 0 floats (multiples of 1/8), 1 integers beyond 2**53 (nanosecond
         # clocks), 2 exact rationals - the deltas are the exact differences in each case
         'clock': st.integers(0, 2),
-        'faults': st.lists(st.integers(0, 16 * 4 * 10 * 3 - 1).map(decode_fault), max_size=2),
+        'faults': st.lists(st.integers(0, 16 * 4 * 12 * 3 - 1).map(decode_fault), max_size=2),
         # scale: 0, or the number of iterations of the first start() (the clock readings are continued by
         # cycling through the generated gaps); faults are then enumerated at sampled iterations only
         'amp': worldops.size_amp(none=60, sizes=(70, 130, 260, 300, 520))})
@@ -224,6 +226,10 @@ class Execution:
             self.end_reason = 'error'
             self.raised = Boom('injected')
             raise self.raised
+        if action in ('error_keyboard_interrupt', 'error_system_exit'):
+            self.end_reason = 'error'
+            self.raised = KeyboardInterrupt() if action == 'error_keyboard_interrupt' else SystemExit(3)
+            raise self.raised
         # world switches: the target is NOT loaded by the harness (a never loaded or cleared handle is loaded by
         # the library on the way); which instance runs is learnt when the loop has switched
         self.next_cur = target
@@ -335,7 +341,7 @@ def run_case(case):
     amp = bool(case.get('amp'))
     for g in frames:
         for pos in (range(maxprocs) if not amp else (0,)):
-            for a in (range(len(ACTIONS)) if not amp else (0, 4, 5)):      # long runs: quit / raise switch / error
+            for a in (range(len(ACTIONS)) if not amp else (0, 4, 5, 10)):  # long runs: quit / raise switch / errors
                 for target in (range(len(case['worlds'])) if not amp else (len(case['worlds']) - 1,)) \
                         if 'switch' in ACTIONS[a] else (0,):
                     Execution(case, [[g, pos, a, target]]).run()
